@@ -8,7 +8,7 @@ import AITB.Props.C03Anytime
 import AITB.Props.C12Interp
 import AITB.Props.C12Cert
 
-namespace AITB.POMDP
+namespace AITB.POMDP3
 open AITB.MDP AITB.Prune AITB.Interp AITB.C12Check
 
 theorem rsum_eq_sumTo (n : Nat) (f : Nat → Rat) : rsum n f = sumTo n f := by
@@ -182,4 +182,4 @@ theorem lpInterp_sound (m : POMDP) (hvm : Valid m) (U L : (Nat → Rat) → Rat)
   have hi := weighted_form_isInterp m st point ubQ pts vals _ _ v hS hvm.A0 hrows hQ hP hp hv
   exact le_trans (hsub _ hx) (isInterp_ge m hvm U L hL st hs _ hx v hi)
 
-end AITB.POMDP
+end AITB.POMDP3
